@@ -726,6 +726,57 @@ def mixR (w : World) (ri : Nat) (ins : List Ref) (eb : Bool) : Except Err World 
   let w2 ← mixE w1 ri is eb
   .ok (w2.trim w.strms.length)
 
+/-! ### holders of shared flow data -/
+
+/-- Stream `i` of the world is only a *holder* of flow data that belongs to stream `j`: one of its phase rows
+(`some q`: a phase view `ms[q]`, a constituent of `MultiStream.from_streams`) or all of it (`none`: a flow proxy).
+In the code the two objects share one `SparseVector` / `SparseArray`; here the holder's entry is re-derived from
+the owner after every operation (`refresh`), and an in-place scaling of a holder is applied to the owner's data. -/
+structure Alias where
+  i : Nat
+  j : Nat
+  q : Option Char
+
+/-- what the holder reads now -/
+def derive (w : World) (a : Alias) : Option Strm :=
+  match w.strms[a.j]?, w.strms[a.i]? with
+  | some owner, some cur =>
+    match a.q with
+    | none => some { cur with multi := owner.multi, ph := owner.ph }
+    | some q => some { cur with multi := false, ph := [(cur.phase, rowOf owner.ph q)] }
+  | _, _ => none
+
+def refresh (w : World) : List Alias → World
+  | [] => w
+  | a :: as =>
+    match derive w a with
+    | some s => refresh (w.setStrm a.i s) as
+    | none => refresh w as
+
+/-- `view *= k` / `view.scale(k)` on a holder of one phase row: the row of the owner is scaled in place -/
+def scaleRow (w : World) (j : Nat) (q : Char) (k : Rat) : Except Err World := do
+  let s ← w.get? j
+  .ok (w.setStrm j { s with ph := modAt q (vscale (w.pkgOf s).length k) s.ph })
+
+/-- `view /= k` -/
+def divRow (w : World) (j : Nat) (q : Char) (k : Rat) : Except Err World := do
+  let s ← w.get? j
+  if k = 0 then .error .rejected
+  else .ok (w.setStrm j { s with ph := modAt q (vdiv (w.pkgOf s).length k) s.ph })
+
+/-- `MultiStream.from_streams([...])`: a new multi-phase stream on the rows of the given single-phase streams
+(same package, pairwise different phases) -/
+def fromStreams (w : World) (ids : List Nat) : Except Err World := do
+  let xs ← getAll w ids
+  match xs with
+  | [] => .error .rejected
+  | x :: _ =>
+    let phases := xs.map (·.phase)
+    if xs.any (·.multi) || phases.eraseDups.length != phases.length || xs.any (fun y => y.pkg != x.pkg) then .error .rejected
+    else
+      let ph := xs.foldl (fun acc y => insPh y.phase (y.total (w.pkgOf x).length) acc) []
+      .ok { w with strms := w.strms ++ [{ pkg := x.pkg, multi := true, ph := ph }] }
+
 /-! ### the enthalpy setter's phase flip (external numerics) -/
 
 /-- `Stream.H = H` relabels a gas stream as liquid (or the reverse) when the temperature solve fails in the
